@@ -201,7 +201,35 @@ func (i *Iterator) OpenReader(ctx context.Context) (*Reader, error) {
 	if i.closed {
 		return nil, ErrIteratorClosed
 	}
+	// The pointer was loaded when the iterator was positioned. Garbage collection may have
+	// compacted the domain's file since then, which moves the domain's bytes without
+	// changing its time range, so the pointer is refreshed from the index. A file with an
+	// acquired reader is not compacted: once the reader is held and the pointer is
+	// unchanged, the offsets stay valid for the reader's lifetime.
+	for range 3 {
+		ptr := i.refreshedPointer(ctx)
+		r, err := i.readerFactory(ctx, ptr)
+		if err != nil {
+			return nil, err
+		}
+		if i.refreshedPointer(ctx) == ptr {
+			i.currPtr = ptr
+			return r, nil
+		}
+		if err = r.Close(); err != nil {
+			return nil, err
+		}
+	}
 	return i.readerFactory(ctx, i.currPtr)
+}
+
+// refreshedPointer returns the index's current pointer for the domain the iterator is
+// positioned on, or the loaded pointer if that domain no longer exists as such.
+func (i *Iterator) refreshedPointer(ctx context.Context) pointer {
+	if ptr, ok := i.idx.getGE(ctx, i.currPtr.Start); ok && ptr.TimeRange == i.currPtr.TimeRange {
+		return ptr
+	}
+	return i.currPtr
 }
 
 // Size returns the number of bytes occupied by the telemetry in the current domain.
